@@ -54,6 +54,49 @@ Theorem C03_gives_up : forall mid0 draws evs t m, wf_run draws evs -> In (OSend 
       (exists tf, In (OFail tf (m_rid m) NetworkError) (trace_of mid0 draws evs)) ).
 Proof. exact gives_up. Qed.
 Print Assumptions C03_gives_up.
+(* 3a (round 5, audit gap 1). Where a NetworkError failure can come from: on a transport that never refuses ([no_refusal]: no `ERefuse _ true`
+   in the event list) it needs a transport error report; holds for EVERY event list, no well-formedness needed *)
+Theorem C03_network_error_has_cause : forall mid0 draws evs tf rid, no_refusal evs ->
+  In (OFail tf rid NetworkError) (trace_of mid0 draws evs) -> exists r, In (EError r) evs.
+Proof. exact network_error_has_cause. Qed.
+Print Assumptions C03_network_error_has_cause.
+(* ... hence the give-up clause on a plain transport (no refusal, no transport error, no ACK / RST for the message, request neither
+   cancelled nor answered) has exactly the two outcomes of the property text, and nobody fails with NetworkError.
+   NOT proved: that this is the ONLY failure of the request (uniqueness / no other exception class) -- that is C02/C09's at-most-once
+   statement and would need an invariant tying each pending request to the remote of its message *)
+Theorem C03_gives_up_plain : forall mid0 draws evs t m, wf_run draws evs -> no_refusal evs -> (forall r, ~ In (EError r) evs) ->
+  In (OSend t m) (trace_of mid0 draws evs) ->
+  ~ In (m_remote m, m_mid m) (recv_keys evs) -> ~ In (err_key (m_remote m)) (recv_keys evs) -> ~ In (gone_key (m_rid m)) (recv_keys evs) ->
+  exists T0 t0 n, copies (m_rid m) (trace_of mid0 draws evs) = sched_of m T0 t0 n /\ (0 < n)%nat /\ range (m_tuning m) t0 /\
+    Z.of_nat n <= MAX_RETRANSMIT (m_tuning m) + 1 /\
+    ( (exists e, In e (active_exchanges (final_of mid0 draws evs)) /\ h_message (e_timer e) = m /\
+                 h_due (e_timer e) = T0 + t0 * (2 ^ Z.of_nat n - 1) /\ now (final_of mid0 draws evs) <= h_due (e_timer e)) \/
+      (Z.of_nat n = MAX_RETRANSMIT (m_tuning m) + 1 /\
+       In (OFail (T0 + t0 * (2 ^ (MAX_RETRANSMIT (m_tuning m) + 1) - 1)) (m_rid m) ConRetransmitsExceeded) (trace_of mid0 draws evs)) ) /\
+    forall tf rid, ~ In (OFail tf rid NetworkError) (trace_of mid0 draws evs).
+Proof. exact gives_up_plain. Qed.
+Print Assumptions C03_gives_up_plain.
+(* 3b (audit gap 8) "instead of hanging": once no exchange is left in the message layer, the request has failed (at the deadline, after
+   all 1+R copies, or through a refusal); and firing the pending timer of an exchange with retransmissions left re-arms exactly that
+   exchange with counter + 1 and doubled timeout, so R+1 firings reach the give-up *)
+Theorem C03_quiescent_means_failed : forall mid0 draws evs t m, wf_run draws evs -> In (OSend t m) (trace_of mid0 draws evs) ->
+  ~ In (m_remote m, m_mid m) (recv_keys evs) -> ~ In (err_key (m_remote m)) (recv_keys evs) -> ~ In (gone_key (m_rid m)) (recv_keys evs) ->
+  active_exchanges (final_of mid0 draws evs) = [] ->
+  (exists T0 t0, copies (m_rid m) (trace_of mid0 draws evs) = sched_of m T0 t0 (Z.to_nat (MAX_RETRANSMIT (m_tuning m) + 1)) /\
+    In (OFail (T0 + t0 * (2 ^ (MAX_RETRANSMIT (m_tuning m) + 1) - 1)) (m_rid m) ConRetransmitsExceeded) (trace_of mid0 draws evs)) \/
+  (exists tf, In (OFail tf (m_rid m) NetworkError) (trace_of mid0 draws evs)).
+Proof. exact quiescent_means_failed. Qed.
+Print Assumptions C03_quiescent_means_failed.
+Theorem C03_fire_progress : forall seen st h st' o, Struct seen st -> next_timer st = Some h ->
+  h_counter h < MAX_RETRANSMIT (m_tuning (h_message h)) -> is_refusing st (m_remote (h_message h)) = false ->
+  step st EFire = (st', o) ->
+  let m := h_message h in
+  o = [OSend (Z.max (now st) (h_due h)) m] /\
+  exists mon, xget (m_remote m, m_mid m) (active_exchanges st') =
+    Some (mon, {| h_due := Z.max (now st) (h_due h) + h_timeout h * 2; h_seq := next_seq st; h_message := m;
+                  h_timeout := h_timeout h * 2; h_counter := h_counter h + 1 |}).
+Proof. exact fire_progress. Qed.
+Print Assumptions C03_fire_progress.
 (* ... and that instant is never later than MAX_TRANSMIT_WAIT (the last copy never later than MAX_TRANSMIT_SPAN) after the first
    copy, with MAX_TRANSMIT_WAIT / MAX_TRANSMIT_SPAN being the code of numbers/constants.py translated on this run *)
 Theorem C03_giveup_within_MAX_TRANSMIT_WAIT : forall tn t, wf_tuning tn -> range tn t ->
@@ -84,6 +127,29 @@ Theorem C03_ack_stops : forall mid0 draws evs1 r b mid evs2 mon h,
    else forall t e, In (OFail t mon e) o -> e = NetworkError /\ is_refusing st1 r = true).
 Proof. exact ack_stops. Qed.
 Print Assumptions C03_ack_stops.
+(* 4' (audit gap 7) the Reset clause on the state, without the history key: an RST for an outstanding exchange whose request is pending
+   fails it with MessageError at that instant, in ANY state; and in every reachable state the request of an outstanding exchange is
+   pending unless it was cancelled or answered *)
+Theorem C03_rst_fails_pending : forall st r mid mon h, xget (r, mid) (active_exchanges st) = Some (mon, h) ->
+  existsb (fun q => fst q =? mon) (outgoing_requests st) = true ->
+  In (OFail (now st) mon MessageError) (snd (step st (ERecv r true mid))).
+Proof. exact rst_fails_pending. Qed.
+Print Assumptions C03_rst_fails_pending.
+Theorem C03_exchange_request_pending : forall mid0 draws evs e, wf_run draws evs -> In e (active_exchanges (final_of mid0 draws evs)) ->
+  In (e_rid e, e_remote e) (outgoing_requests (final_of mid0 draws evs)) \/ In (gone_key (e_rid e)) (recv_keys evs).
+Proof. exact exchange_request_pending. Qed.
+Print Assumptions C03_exchange_request_pending.
+(* 4'' (audit gap 3) the piggy-backed response is an ACK with the exchange's message ID: no further copy in this step or any continuation *)
+Theorem C03_piggyback_stops : forall mid0 draws evs1 r mid rid evs2 mon h,
+  wf_run draws (evs1 ++ EResponse r 0 mid rid :: evs2) ->
+  xget (r, mid) (active_exchanges (final_of mid0 draws evs1)) = Some (mon, h) ->
+  let st1 := final_of mid0 draws evs1 in
+  let '(st2, o) := step st1 (EResponse r 0 mid rid) in
+  let '(st3, os) := run st2 evs2 in
+  mon = m_rid (h_message h) /\ copies mon (o ++ concat os) = [] /\
+  forall t e, In (OFail t mon e) o -> e = NetworkError /\ is_refusing st1 r = true.
+Proof. exact piggyback_stops. Qed.
+Print Assumptions C03_piggyback_stops.
 
 (* 4b. a transport error reported for r (ICMP; MessageManager.dispatch_error): no further copy of any message that was in an
        exchange with r or backlogged for r, in this step or in any continuation; every request pending towards r fails at once *)
